@@ -84,6 +84,7 @@ def gen_scenario(seed, index):
     for _ in range(n):
         k = weighted(rng, [("repeat", 60), ("sibling", 10), ("fail", 12), ("fault", 12), ("resolve", 6),
                            ("display", 3), ("derive", 4), ("introspect", 5), ("abc", 3),
+                           ("registry", 2), ("flood", 1.5),
                            ("mutate", 3 if not mutated else 0.5)])
         if k in ("repeat", "fail"):
             ops.append({"op": k, "i": rng.randrange(len(corpus))})
@@ -104,6 +105,13 @@ def gen_scenario(seed, index):
         elif k == "abc":
             # an unrelated ABC registration somewhere else in the process (bumps abc's cache token)
             ops.append({"op": "abc"})
+        elif k == "registry":
+            # an unrelated generic registered with the library's annotation normaliser
+            ops.append({"op": "registry"})
+        elif k == "flood":
+            # many first-time argument types (fresh subclasses): a bounded cache must not evict
+            # what was resolved before
+            ops.append({"op": "flood", "n": rng.choice([40, 120, 300]), "i": rng.randrange(len(corpus))})
         elif k == "derive":
             # deriving a child (copy / variant / mixin combination) does not change f's own methods
             ops.append({"op": "derive", "how": rng.choice(["copy", "variant", "mixin"]),
@@ -307,6 +315,34 @@ def execute(scen):
                 stats["disturb"]["introspect:" + what] = stats["disturb"].get("introspect:" + what, 0) + 1
             except Exception as e:  # noqa: BLE001
                 trace.append(["introspect-error", op["what"], type(e).__name__])
+        elif k == "registry":
+            from ovld.types import normalize_type
+
+            G = type(f"G{j}", (), {})  # any new origin class will do: it is never looked up
+            try:
+                normalize_type.register_generic(G, lambda self, t, fn: object)
+            except Exception as e:  # noqa: BLE001
+                trace.append(["registry-error", type(e).__name__])
+            finally:
+                gh = normalize_type.generic_handlers
+                gh.types.discard(G)
+                gh.entries.pop(G, None)
+                dict.clear(gh)
+            stats["disturb"]["register_generic"] = stats["disturb"].get("register_generic", 0) + 1
+        elif k == "flood":
+            c = corpus[op["i"]]
+            if c.get("args") and c["args"][0][0] == "n" and not c.get("kw") \
+                    and len(c["args"]) >= spec["meta"]["min_ar"]:
+                base = getattr(h.w.mod, c["args"][0][1])
+                rest = [h.w.value(v) for v in c["args"][1:]]
+                for q in range(op["n"]):
+                    sub = type(f"Flood{j}_{q}", (base,), {})
+                    try:
+                        h.ov.dispatch(sub(0, []), *rest) if not spec["meta"].get("self") else None
+                    except Exception:  # noqa: BLE001
+                        pass
+                h.w.log.take()
+                stats["disturb"]["flood"] = stats["disturb"].get("flood", 0) + 1
         elif k == "abc":
             import collections.abc
 
